@@ -679,6 +679,17 @@ def _shrink_candidates(case):
         if c["labels"] is not None:
             c["labels"] = c["labels"][: n - 1]
         yield c
+    # compact the node ids (monotone map keeps the relative order of the nodes)
+    keep = sorted({x for a in arcs for x in a[:2]} | ({case["s"], case["t"]} - {None}) |
+                  {i for i, b in enumerate(case["multi"] or []) if b})
+    if 2 <= len(keep) < n and case["labels"] is None:
+        mp = {x: i for i, x in enumerate(keep)}
+        c = dict(case); c["n"] = len(keep)
+        c["arcs"] = [(mp[u], mp[v], cp, w) for u, v, cp, w in arcs]
+        c["s"] = mp.get(case["s"]); c["t"] = mp.get(case["t"])
+        if c["multi"] is not None:
+            c["multi"] = [case["multi"][x] for x in keep]
+        yield c
     for i, (u, v, cp, w) in enumerate(arcs):
         if cp > 1:
             c = dict(case); c["arcs"] = arcs[:i] + [(u, v, cp - 1, w)] + arcs[i + 1:]; yield c
